@@ -24,7 +24,7 @@ ID = "C16"
 LEVEL = "fault_enumeration"
 RULE = ("systematic product {child behaviour} x {exit path} x {moment} x {entry point} with fixed parameters, plus seeded scenarios with "
         "random latencies/instants/second cancellation; non-trivial = the child misbehaved or the exit was not the plain normal path")
-PROBES = ["large_messages_queued_at_exit", "requests_parked_behind_full_outgoing_queue_when_child_died", "exit_with_more_unread_output_than_reader_buffers", "child_state_checked_at_instant_of_exit", "client_object_reused", "exit_under_cancel_scope", "exit_under_task_cancel", "exit_under_fail_after", "exit_by_exception", "sigterm_ignored_then_killed",
+PROBES = ["retry_on_same_transport_after_failed_start", "large_messages_queued_at_exit", "requests_parked_behind_full_outgoing_queue_when_child_died", "exit_with_more_unread_output_than_reader_buffers", "child_state_checked_at_instant_of_exit", "client_object_reused", "exit_under_cancel_scope", "exit_under_task_cancel", "exit_under_fail_after", "exit_by_exception", "sigterm_ignored_then_killed",
           "child_already_dead_at_exit", "cancel_landed_inside_aexit", "request_pending_when_child_died", "spawn_failed", "writer_blocked_at_exit",
           "flood_at_exit"]
 TIERS = {"quick": {"runs": 20000, "wall": 45.0}, "thorough": {"runs": 1500000, "wall": 560.0}}
@@ -141,7 +141,7 @@ def generate(rng: random.Random, tier: str) -> dict:
     if path == "task_cancel" and rng.random() < 0.25:
         sc = {"dt": rng.choice([0, 1, 100, 1023, 1024, 1500])}
     entry = rng.choice(ENTRIES)
-    return {"v": 1, "entry": entry, "child": _child_cfg(kind, rng), "body": body, "exit": _exit_for(path, moment, rng),
+    return {"v": 1, "retry_after_failed_start": rng.random() < 0.5, "entry": entry, "child": _child_cfg(kind, rng), "body": body, "exit": _exit_for(path, moment, rng),
             "second_cancel": sc, "moment": moment,
             # StdioClient objects may be entered again: an earlier (plain) conversation over the same object
             "earlier_conversations": (rng.choice([1, 2]) if entry == "StdioClient" and rng.random() < 0.4 else 0)}
@@ -352,7 +352,16 @@ def execute(scn: dict) -> dict:
                     r, w = client.get_streams()
                     await inside(r, w)
             else:
-                async with StdioTransport(params) as tr:
+                tr = StdioTransport(params)
+                if ch.get("spawn_error") and scn.get("retry_after_failed_start"):
+                    # the application retries on the same transport object after the first attempt to start the server failed
+                    try:
+                        async with tr:
+                            st["first_enter"] = "entered"
+                    except Exception as e1:  # noqa
+                        st["first_enter"] = "raised:" + type(e1).__name__
+                    sim.probe("retry_on_same_transport_after_failed_start")
+                async with tr:
                     r, w = await tr.get_streams()
                     await inside(r, w)
 
